@@ -273,6 +273,34 @@ MUTATIONS = ['bad-category', 'no-category', 'unpublished', 'prefix-extended', 'c
              'inverted-window', 'window-noncapable', 'window-beyond', 'zero-activity', 'negative-activity', 'bad-mdl', 'no-basename', 'unknown-option', 'missing-value', 'stray-parameter']
 
 
+def apply_mutation(c, cat, m, pick):
+    """one mutation of a command-line model; pick(list) chooses among the variants (a Hypothesis draw, or an enumeration index)"""
+    if m == 'bad-category': c['category'] = 'xyz'
+    elif m == 'no-category': c['category'] = None
+    elif m == 'unpublished': c['nuclide'], c['nuclide_class'] = pick((['Xx99', 'Po214', 'Ta180m', 'U235', 'mo100', 'Bi214' if cat == 'background' else 'Mo101'])), 'unpublished'
+    elif m == 'prefix-extended': c['nuclide'], c['nuclide_class'] = str(c['nuclide']) + pick((['m', '0', '+X'])), 'prefix-extended'
+    elif m == 'cross-category': c['nuclide'], c['nuclide_class'] = pick(([n for n in (DBD if cat == 'background' else BKG) if n not in (BKG if cat == 'background' else DBD)])), 'cross-category'
+    elif m == 'no-nuclide': c['nuclide'], c['nuclide_class'] = None, 'missing'
+    elif m == 'bad-seed': c['seed'] = pick(([-5, -1]))
+    elif m == 'bad-count': c['count'] = pick(([0, -3, -1, -18446744073709551613]))
+    elif cat == 'dbd' and m == 'bad-level': c['level'] = -1
+    elif cat == 'dbd' and m == 'huge-level': c['level'] = pick(([9, 17, 99]))
+    elif cat == 'dbd' and m == 'bad-mode': c['mode'] = pick(([0, 25, 26, -1]))
+    elif cat == 'dbd' and m == 'no-mode': c['mode'] = None
+    elif cat == 'dbd' and m == 'gA-mode': c['mode'] = pick(([21, 22, 23, 24]))
+    elif cat == 'dbd' and m == 'wrong-spin-mode': c['mode'] = pick(([7, 8, 16, 1, 4]))
+    elif cat == 'dbd' and m == 'inverted-window': c['emin'], c['emax'], c['window_class'] = 1.5, 0.5, 'inverted'
+    elif cat == 'dbd' and m == 'window-noncapable': c['emin'], c['emax'], c['window_class'] = 0.5, 1.5, 'valid'
+    elif cat == 'dbd' and m == 'window-beyond': c['emin'], c['emax'], c['window_class'] = 50.0, 60.0, 'beyond'
+    elif m == 'zero-activity': c['activity'] = 0.0
+    elif m == 'negative-activity': c['activity'] = -1.0
+    elif m == 'bad-mdl': c['mdl'] = {'particle': pick((['muon', None, 'e-'])), 'rank': pick(([-2, 0])), 'phi': 0.0, 'theta': 90.0, 'aperture': pick(([400.0, -1.0, 5.0]))}
+    elif m == 'no-basename': c['basename_style'] = 'none'
+    elif m in ('unknown-option', 'missing-value', 'stray-parameter'):
+        c['extra'] = m
+        c['missing_opt'] = pick((['-s', '-n', '-N', '-c', '-m', '-l', '-e', '-E', '-a', '-b', '-g', '--pgop-mdl-rank', '--pgop-mdl-particle', '--pgop-mdl-cone-aperture']))
+
+
 @st.composite
 def lines(draw):
     """a valid command line with 0..2 mutations (so that both verdicts and every refusal reason are well represented)"""
@@ -308,34 +336,42 @@ def lines(draw):
     nmut = draw(st.sampled_from([0, 0, 0, 0, 0, 1, 1, 1, 2]))
     muts = [draw(st.sampled_from(MUTATIONS)) for _ in range(nmut)]
     for m in muts:
-        if m == 'bad-category': c['category'] = 'xyz'
-        elif m == 'no-category': c['category'] = None
-        elif m == 'unpublished': c['nuclide'], c['nuclide_class'] = draw(st.sampled_from(['Xx99', 'Po214', 'Ta180m', 'U235', 'mo100', 'Bi214' if cat == 'background' else 'Mo101'])), 'unpublished'
-        elif m == 'prefix-extended': c['nuclide'], c['nuclide_class'] = str(c['nuclide']) + draw(st.sampled_from(['m', '0', '+X'])), 'prefix-extended'
-        elif m == 'cross-category': c['nuclide'], c['nuclide_class'] = draw(st.sampled_from([n for n in (DBD if cat == 'background' else BKG) if n not in (BKG if cat == 'background' else DBD)])), 'cross-category'
-        elif m == 'no-nuclide': c['nuclide'], c['nuclide_class'] = None, 'missing'
-        elif m == 'bad-seed': c['seed'] = -5
-        elif m == 'bad-count': c['count'] = draw(st.sampled_from([0, -3]))
-        elif cat == 'dbd' and m == 'bad-level': c['level'] = -1
-        elif cat == 'dbd' and m == 'huge-level': c['level'] = draw(st.sampled_from([9, 17, 99]))
-        elif cat == 'dbd' and m == 'bad-mode': c['mode'] = draw(st.sampled_from([0, 25, 26, -1]))
-        elif cat == 'dbd' and m == 'no-mode': c['mode'] = None
-        elif cat == 'dbd' and m == 'gA-mode': c['mode'] = draw(st.sampled_from([21, 22, 23, 24]))
-        elif cat == 'dbd' and m == 'wrong-spin-mode': c['mode'] = draw(st.sampled_from([7, 8, 16, 1, 4]))
-        elif cat == 'dbd' and m == 'inverted-window': c['emin'], c['emax'], c['window_class'] = 1.5, 0.5, 'inverted'
-        elif cat == 'dbd' and m == 'window-noncapable': c['emin'], c['emax'], c['window_class'] = 0.5, 1.5, 'valid'
-        elif cat == 'dbd' and m == 'window-beyond': c['emin'], c['emax'], c['window_class'] = 50.0, 60.0, 'beyond'
-        elif m == 'zero-activity': c['activity'] = 0.0
-        elif m == 'negative-activity': c['activity'] = -1.0
-        elif m == 'bad-mdl': c['mdl'] = {'particle': draw(st.sampled_from(['muon', None, 'e-'])), 'rank': draw(st.sampled_from([-2, 0])), 'phi': 0.0, 'theta': 90.0, 'aperture': draw(st.sampled_from([400.0, -1.0, 5.0]))}
-        elif m == 'no-basename': c['basename_style'] = 'none'
-        elif m in ('unknown-option', 'missing-value', 'stray-parameter'):
-            c['extra'] = m
-            c['missing_opt'] = draw(st.sampled_from(['-s', '-n', '-N', '-c', '-m', '-l', '-e', '-E', '-a', '-b', '-g', '--pgop-mdl-rank', '--pgop-mdl-particle', '--pgop-mdl-cone-aperture']))
+        apply_mutation(c, cat, m, lambda l: draw(st.sampled_from(list(l))))
     if c['category'] != 'dbd':
         c['window_class'] = 'none'
         c['emin'], c['emax'] = None, None
     return c
+
+
+
+def systematic_lines():
+    """every mutation kind x every variant on three fixed valid lines: each refusal reason is exercised in every run, whatever the seed"""
+    bases = [dict(category='background', nuclide='Co60', level=None, mode=None, emin=None, emax=None, window_class='none'),
+             dict(category='dbd', nuclide='Mo100', level=0, mode=4, emin=0.5, emax=1.5, window_class='valid'),
+             dict(category='dbd', nuclide='Mo100', level=0, mode=1, emin=None, emax=None, window_class='none')]
+    out = []
+    for b in bases:
+        for m in MUTATIONS:
+            for idx in range(14):
+                used = []
+
+                def pick(l, idx=idx, used=used):
+                    l = list(l)
+                    used.append(len(l))
+                    return l[idx % len(l)]
+                c = {'extra': None, 'missing_opt': '-s', 'mdl': None, 'activity': None, 'nuclide_class': 'published', 'nuclide_flag': '-N', 'seed': 12345, 'count': 3, 'basename_style': 'flag'}
+                c.update(b)
+                before = json.dumps(c, sort_keys=True, default=str)
+                apply_mutation(c, b['category'], m, pick)
+                if c['category'] != 'dbd':
+                    c['window_class'] = 'none'
+                    c['emin'], c['emax'] = None, None
+                if json.dumps(c, sort_keys=True, default=str) == before:
+                    break      # mutation does not apply to this base
+                out.append(c)
+                if idx + 1 >= max(used or [1]):
+                    break
+    return out
 
 
 max_ex = int(os.environ.get('VERIF_C13_LINES', 5000 if TIER == 'thorough' else 260))
@@ -368,6 +404,15 @@ def main():
     t0 = time.time()
     failures = []
     try:
+        for c in systematic_lines():
+            lab('systematic-line')
+            try:
+                check_line(c)
+            except Violation as v:
+                if v.cls == 'harness':
+                    raise
+                STATS['failure'] = (c, v.cls, str(v))
+                raise AssertionError(str(v))
         prop()
     except AssertionError:
         pass
